@@ -216,6 +216,22 @@ def check(ctx):
             ok, why, chain = discharge_reduction(repo, s)
             ctx.ob("GRD-empty", s.fn, s.text, s.node, ok, why, chain=chain, clause="zero-row or zero-column shape never raises")
     ctx.count("partial-operation sites in the rendering call graph", n_sites, 3)
+    # GRD-num: int(x) / round-trip conversions of a limit option.  The renderers take their limits (max_rows, max_width,
+    # truncate_width) as numbers compared with < / min(): math.inf is a legitimate "no limit" (Vector.to_strings' own default for
+    # truncate_width is inf).  int() of such an option raises OverflowError for inf (ValueError for nan): a partial operation
+    # on a value the statement covers.
+    ctx.rule("GRD-num", "a limit option of a renderer is not passed through int(): inf is a legitimate limit")
+    for q, f in sorted(reach.items()):
+        if f.parent is not None or f.module.name in ("dataiter.aggregate", "dataiter.dt", "dataiter.regex"):
+            continue
+        opts = {p_ for p_ in list(f.params) + list(f.kwonly) if p_.startswith(("max_", "truncate_")) or p_ in ("width", "n")}
+        if not opts:
+            continue
+        for _f, c in calls_in(f, False):
+            if norm(c.func) == "int" and c.args and any(isinstance(y, ast.Name) and y.id in opts for y in ast.walk(c.args[0])):
+                ctx.ob("GRD-num", f, norm(c)[:60], c, False,
+                       f"`{norm(c)[:50]}` raises OverflowError when the limit is math.inf (no limit), which the comparison-based code accepts",
+                       clause="never raises")
     # DataFrame.modify raises ValueError for a non-callable value when the frame is GROUPED (grouped modify applies functions
     # to the groups).  A renderer that replaces a column through modify(col=<value>) therefore fails for a grouped frame --
     # a state every public group_by() produces -- unless it is known to be ungrouped there.
